@@ -571,6 +571,21 @@ func (ev *evaluator) eval(fr *evalFrame, v ssa.Value, depth int) (interface{}, b
 						}
 						return tvalScalar(tv.L[i])
 					}
+					// an element of a list that is itself an element of a literal table (a list of lists)
+					if lv, ok := ev.eval(fr, addr.X, depth+1); ok {
+						if l, isL := lv.(absList); isL {
+							iv, ok := ev.eval(fr, addr.Index, depth+1)
+							i, isI := iv.(int64)
+							if !ok || !isI {
+								return nil, false
+							}
+							if l.tv == nil || i < 0 || int(i) >= len(l.tv.L) {
+								ev.panicked = true
+								return nil, false
+							}
+							return tvalScalar(l.tv.L[i])
+						}
+					}
 				}
 				return nil, false
 			}
